@@ -64,42 +64,41 @@ abbrev Env := Array LVal
 /-! ### integer arithmetic -/
 
 def toInt (t : Ty) (n : Nat) : Int :=
-  if t.signed && n ≥ 2 ^ (t.bits - 1) then (n : Int) - (2 ^ t.bits : Nat) else (n : Int)
+  if t.signed && n ≥ t.half then (n : Int) - (t.modulus : Nat) else (n : Int)
 
-def ofInt (t : Ty) (i : Int) : Nat := (i % ((2 ^ t.bits : Nat) : Int)).toNat
+def ofInt (t : Ty) (i : Int) : Nat := (i % ((t.modulus : Nat) : Int)).toNat
 
-def castVal (to from_ : Ty) (n : Nat) : Nat := ofInt to (toInt from_ n)
+def castVal (to from_ : Ty) (n : Nat) : Nat :=
+  if from_.signed then ofInt to (toInt from_ n) else n % to.modulus
 
 def b2n (b : Bool) : Nat := if b then 1 else 0
 
 /-- result of a binary operation on normalised operands; `none` for a shift ≥ width or division by 0
     (both decided by the second operand only) -/
 def binVal (op : BinOp) (t : Ty) (a b : Nat) : Option Nat :=
-  let m := 2 ^ t.bits
   match op with
-  | .add => some ((a + b) % m)
-  | .sub => some ((a + m - b % m) % m)
-  | .mul => some ((a * b) % m)
+  | .add => some ((a + b) % t.modulus)
+  | .sub => some ((a + t.modulus - b % t.modulus) % t.modulus)
+  | .mul => some ((a * b) % t.modulus)
   | .div => if b = 0 then none else some (a / b)
   | .rem => if b = 0 then none else some (a % b)
   | .band => some (a &&& b)
   | .bor => some (a ||| b)
   | .bxor => some (a ^^^ b)
-  | .shl => if b ≥ t.bits then none else some ((a <<< b) % m)
+  | .shl => if b ≥ t.bits then none else some ((a <<< b) % t.modulus)
   | .shr => if b ≥ t.bits then none else
       if t.signed then some (ofInt t (toInt t a >>> b)) else some (a >>> b)
   | .eq => some (b2n (a = b))
   | .ne => some (b2n (a ≠ b))
-  | .lt => some (b2n (toInt t a < toInt t b))
-  | .le => some (b2n (toInt t a ≤ toInt t b))
-  | .gt => some (b2n (toInt t a > toInt t b))
-  | .ge => some (b2n (toInt t a ≥ toInt t b))
+  | .lt => some (b2n (if t.signed then toInt t a < toInt t b else a < b))
+  | .le => some (b2n (if t.signed then toInt t a ≤ toInt t b else a ≤ b))
+  | .gt => some (b2n (if t.signed then toInt t a > toInt t b else a > b))
+  | .ge => some (b2n (if t.signed then toInt t a ≥ toInt t b else a ≥ b))
 
 def unVal (op : UnOp) (t : Ty) (a : Nat) : Nat :=
-  let m := 2 ^ t.bits
   match op with
-  | .bnot => m - 1 - a % m
-  | .neg => (m - a % m) % m
+  | .bnot => t.modulus - 1 - a % t.modulus
+  | .neg => (t.modulus - a % t.modulus) % t.modulus
   | .lnot => b2n (a = 0)
 
 /-- operations whose second operand must be public (and for division the first as well) -/
@@ -197,8 +196,12 @@ def writeBytes (bs : Array LByte) (off : Nat) : List LByte → Array LByte
   | [] => bs
   | x :: xs => writeBytes (bs.setIfInBounds off x) (off + 1) xs
 
-def sliceBytes (bs : Array LByte) (off n : Nat) : List LByte :=
-  (bs.extract off (off + n)).toList
+def sliceBytes (bs : Array LByte) (off : Nat) : Nat → List LByte
+  | 0 => []
+  | n + 1 =>
+    match bs[off]? with
+    | none => []
+    | some x => x :: sliceBytes bs (off + 1) n
 
 /-! ### statements -/
 
@@ -227,9 +230,10 @@ def deliver (st : St) (buf size : Nat) : Except Fault (LVal × St) :=
   let n := min d.1.length size
   let st1 : St := { st with ent := st.ent.tail, leak := .ent buf size :: st.leak }
   if n = 0 then .ok ((d.2, .pub), st1) else
-  match resolve st.mem buf n with
+  match resolve st.mem buf 1 with
   | .error k => .error k
   | .ok (b, off) =>
+    if off + n > (blockBytes st.mem b).size then .error .oob else
     let bytes := writeBytes (blockBytes st.mem b) off ((d.1.take n).map fun x => (x, Lab.sec))
     .ok ((d.2, .pub), { st1 with mem := setBlock st.mem b bytes })
 
@@ -240,6 +244,23 @@ def assignDst (dst : Option Nat) (env : Env) (v : Option LVal) : Except Fault En
     match v with
     | none => .error .noreturn
     | some v => .ok (setVar env x v)
+
+/-- environment and memory at function entry: arguments, undefined locals, fresh blocks -/
+def enterFun (fd : FunDecl) (vs : List LVal) (mem : Array Block) : Env × Array Block :=
+  allocLocals fd.allocs (vs ++ List.replicate (fd.nvars - fd.nparams) (0, Lab.undef)).toArray mem
+
+def Sig.retVal : Sig → Option LVal
+  | .ret v => v
+  | _ => none
+
+/-- back in the caller: the callee's blocks are released, the result (if any) is assigned -/
+def leaveFun (dst : Option Nat) (env : Env) (size0 : Nat) : Out → Out
+  | .ok sig _ st2 =>
+    let st3 := { st2 with mem := st2.mem.extract 0 size0 }
+    match assignDst dst env sig.retVal with
+    | .error k => .fault k st3.leak
+    | .ok env' => .ok .normal env' st3
+  | r => r
 
 def exec (prog : Program) : Nat → Stmt → Env → St → Out
   | 0, _, _, _ => .timeout
@@ -306,16 +327,8 @@ def exec (prog : Program) : Nat → Stmt → Env → St → Out
         | none => .fault .badcall st.leak
         | some fd =>
           if vs.length ≠ fd.nparams then .fault .badcall st.leak else
-          let env0 : Env := (vs ++ List.replicate (fd.nvars - fd.nparams) (0, Lab.undef)).toArray
-          let (env1, mem1) := allocLocals fd.allocs env0 st.mem
-          match exec prog fuel fd.body env1 { st with mem := mem1 } with
-          | .ok sig _ st2 =>
-            let st3 := { st2 with mem := st2.mem.extract 0 st.mem.size }
-            let rv := match sig with | .ret v => v | _ => none
-            match assignDst dst env rv with
-            | .error k => .fault k st3.leak
-            | .ok env' => .ok .normal env' st3
-          | r => r
+          leaveFun dst env st.mem.size
+            (exec prog fuel fd.body (enterFun fd vs st.mem).1 { st with mem := (enterFun fd vs st.mem).2 })
     | .calli dst fp args =>
       match evalE env fp with
       | .error k => .fault k st.leak
@@ -326,31 +339,27 @@ def exec (prog : Program) : Nat → Stmt → Env → St → Out
         | .ok vs =>
           let st0 := { st with leak := .icall f :: st.leak }
           if f = userCb then
-            match vs with
-            | [_, (buf, lb), (size, ls)] =>
-              if lb ≠ .pub || ls ≠ .pub then .fault .taint st0.leak else
-              match deliver st0 buf size with
-              | .error k => .fault k st0.leak
-              | .ok (v, st1) =>
-                match assignDst dst env (some v) with
-                | .error k => .fault k st1.leak
-                | .ok env' => .ok .normal env' st1
-            | _ => .fault .badcall st0.leak
+            if vs.length ≠ 3 then .fault .badcall st0.leak else
+            match vs[1]? with
+            | none => .fault .badcall st0.leak
+            | some (buf, lb) =>
+              match vs[2]? with
+              | none => .fault .badcall st0.leak
+              | some (size, ls) =>
+                if lb ≠ .pub || ls ≠ .pub then .fault .taint st0.leak else
+                match deliver st0 buf size with
+                | .error k => .fault k st0.leak
+                | .ok (v, st1) =>
+                  match assignDst dst env (some v) with
+                  | .error k => .fault k st1.leak
+                  | .ok env' => .ok .normal env' st1
           else if f < fnBase then .fault .badcall st0.leak else
           match prog[f - fnBase]? with
           | none => .fault .badcall st0.leak
           | some fd =>
             if vs.length ≠ fd.nparams then .fault .badcall st0.leak else
-            let env0 : Env := (vs ++ List.replicate (fd.nvars - fd.nparams) (0, Lab.undef)).toArray
-            let (env1, mem1) := allocLocals fd.allocs env0 st0.mem
-            match exec prog fuel fd.body env1 { st0 with mem := mem1 } with
-            | .ok sig _ st2 =>
-              let st3 := { st2 with mem := st2.mem.extract 0 st0.mem.size }
-              let rv := match sig with | .ret v => v | _ => none
-              match assignDst dst env rv with
-              | .error k => .fault k st3.leak
-              | .ok env' => .ok .normal env' st3
-            | r => r
+            leaveFun dst env st0.mem.size
+              (exec prog fuel fd.body (enterFun fd vs st0.mem).1 { st0 with mem := (enterFun fd vs st0.mem).2 })
     | .memcpy d s n =>
       match evalE env d with
       | .error k => .fault k st.leak
